@@ -398,6 +398,34 @@ def swallowed_pulls(tree, res, modules=None):
     return out
 
 
+_STOPFILL_SUPERS = ("LenaStopFill", "LenaException", "Exception", "BaseException")
+
+
+def swallowed_stop_fill(tree, res, allowed=()):
+    """[(module, function, try node, handler, fill call)]: a try statement whose body fills another element (`x.fill(...)` /
+    `x.fill_into(...)`) and whose handler catches LenaStopFill or a class above it (or everything) without re-raising, in a
+    function that is not one of the *allowed* drivers.  LenaStopFill is the stop signal of the fill protocol: it has to reach the
+    driver (Split.run), which finalises and drops the branch; an adapter that keeps it makes the chain go on being filled."""
+    out = []
+    for mod, fn in tree.functions():
+        if (mod.name, A.qualname(fn)) in allowed:
+            continue
+        for tr in A.walk_local(fn):
+            if not isinstance(tr, ast.Try):
+                continue
+            fills = [c for st in tr.body for c in A.walk_local(st) if isinstance(c, ast.Call) and isinstance(c.func, ast.Attribute)
+                     and c.func.attr in ("fill", "fill_into")]
+            if not fills:
+                continue
+            for h in tr.handlers:
+                if any(isinstance(x, ast.Raise) for x in ast.walk(h)):
+                    continue
+                types = [h.type] if h.type is not None and not isinstance(h.type, ast.Tuple) else (list(h.type.elts) if h.type is not None else [None])
+                if any(t is None or (res.canon(t) or A.src(t)).rsplit(".", 1)[-1] in _STOPFILL_SUPERS for t in types):
+                    out.append((mod, fn, tr, h, fills[0]))
+    return out
+
+
 DIM_SITES = (("lena.structures.histogram", "histogram.__init__"), ("lena.structures.hist_functions", "check_edges_increasing"),
              ("lena.structures.hist_functions", "get_bin_edges"), ("lena.structures.hist_functions", "unify_1_md"),
              ("lena.structures.hist_functions", "iter_bins_with_edges"), ("lena.structures.hist_functions", "init_bins"))
